@@ -230,6 +230,98 @@ pub fn op_threads(case: &J) -> J {
   let expected = Arc::new(expected);
   let evaluators = Arc::new(evaluators);
   let clock = Arc::new(AtomicU64::new(0));
+  // ---- phase 0: cold start. Everything above and below shares evaluators that have already served every call once in
+  // sequence; what an evaluator prepares lazily, on the FIRST evaluation of an invocable, is then long done when the
+  // threads arrive. Here each round builds a fresh evaluator of one model and the threads make the first evaluations
+  // themselves, together: a barrier before every step, every thread calls the same invocable (inputs rotate), so that
+  // the first evaluation of each invocable happens on several threads at once. ----
+  let cold_rounds = case.get("cold_rounds").and_then(|v| v.as_u64()).unwrap_or(0) as usize;
+  let cold_steps = case.get("cold_steps").and_then(|v| v.as_u64()).unwrap_or(16) as usize;
+  let mut cold_total = 0u64;
+  let mut cold_mismatch_count = 0u64;
+  let mut cold_first_evaluations = 0u64;
+  let mut cold_mismatches: Vec<J> = vec![];
+  let mut cold_panics = 0usize;
+  if cold_rounds > 0 {
+    st.mode.store(MODE_OFF, Ordering::SeqCst);
+    for round in 0..cold_rounds {
+      let model = ((mix(seed ^ 0xc01d) % model_texts.len() as u64) as usize + round) % model_texts.len();
+      let mut groups: Vec<Vec<usize>> = vec![];
+      for (i, c) in calls.iter().enumerate() {
+        if c.model != model {
+          continue;
+        }
+        match groups.iter_mut().find(|g| calls[g[0]].invocable == c.invocable) {
+          Some(g) => g.push(i),
+          None => groups.push(vec![i]),
+        }
+      }
+      if groups.is_empty() {
+        continue;
+      }
+      // seeded order of the invocables (what was evaluated before may matter: a required decision warms its requirer's parts)
+      let mut x = mix(seed ^ 0xc01d5eed ^ ((round as u64) << 24));
+      for i in (1..groups.len()).rev() {
+        x = mix(x);
+        groups.swap(i, (x % (i as u64 + 1)) as usize);
+      }
+      groups.truncate(cold_steps.max(1));
+      let fresh = match dmntk_model::parse(&model_texts[model]).ok().and_then(|d| ModelEvaluator::new(&d).ok()) {
+        Some(e) => e,
+        None => return json!({"harness_error": "model does not build a third time"}),
+      };
+      cold_first_evaluations += groups.len() as u64;
+      let groups = Arc::new(groups);
+      let barrier = Arc::new(Barrier::new(n_threads));
+      let mut hs = vec![];
+      for t in 0..n_threads {
+        let (calls, expected, fresh, barrier, groups) = (calls.clone(), expected.clone(), fresh.clone(), barrier.clone(), groups.clone());
+        hs.push(
+          std::thread::Builder::new()
+            .name(format!("c20-cold-{}", t))
+            .stack_size(8 * 1024 * 1024)
+            .spawn(move || {
+              let mut bad: Vec<J> = vec![];
+              let mut n_bad = 0u64;
+              let mut n = 0u64;
+              for (step, g) in groups.iter().enumerate() {
+                let idx = g[(t + round + step) % g.len()];
+                let c = &calls[idx];
+                let input = tagged(&c.input, "cold");
+                barrier.wait();
+                // the evaluation is fenced so that a panic cannot leave the other threads waiting at the next barrier
+                let v = std::panic::catch_unwind(std::panic::AssertUnwindSafe(|| fresh.evaluate_invocable(&c.invocable, &input)));
+                n += 1;
+                let got = match v {
+                  Ok(v) => vj::from_value(&v).to_string(),
+                  Err(_) => "<panic>".to_string(),
+                };
+                if got != expected[idx] {
+                  n_bad += 1;
+                  if bad.len() < 3 {
+                    bad.push(json!({"phase": "cold-start", "round": round, "step": step, "thread": t, "index": idx, "invocable": c.invocable, "expected": expected[idx], "observed": got}));
+                  }
+                }
+              }
+              (n, n_bad, bad)
+            })
+            .expect("spawn"),
+        );
+      }
+      for h in hs {
+        match h.join() {
+          Ok((n, n_bad, bad)) => {
+            cold_total += n;
+            cold_mismatch_count += n_bad;
+            if cold_mismatches.len() < 5 {
+              cold_mismatches.extend(bad);
+            }
+          }
+          Err(_) => cold_panics += 1,
+        }
+      }
+    }
+  }
   // ---- phase A: free run with seeded yields ----
   st.seed.store(seed, Ordering::SeqCst);
   st.inside.store(0, Ordering::SeqCst);
@@ -436,11 +528,14 @@ pub fn op_threads(case: &J) -> J {
     "calls": events.len(),
     "expected_non_null": non_null,
     "mismatches": mismatches,
-    "mismatch_count": events.iter().filter(|e| !e.4).count() as u64 + hammer_mismatch_count,
+    "mismatch_count": events.iter().filter(|e| !e.4).count() as u64 + hammer_mismatch_count + cold_mismatch_count,
+    "cold_calls": cold_total,
+    "cold_first_evaluations": cold_first_evaluations,
+    "cold_mismatches": cold_mismatches,
     "sequential_differs": sequential_differs,
     "hammer_calls": hammer_total,
     "hammer_targets": hammer_targets,
-    "thread_panics": thread_panics,
+    "thread_panics": thread_panics + cold_panics,
     "overlapping_pairs": overlapping_pairs,
     "max_overlap_logical": max_overlap,
     "max_inside_hook": max_inside_free,
